@@ -400,6 +400,9 @@ def newPolicy : Policy where
 `NewStyleField.__getitem__` (`np.isscalar(res)`) keep the tag unless NumPy returned a scalar -/
 def getitemTag (t : Tag) (scalar : Bool) : Tag := if scalar then .scalar else t
 
+/-- `reshape`/`ravel` of a NumPy scalar give a bare ndarray; arrays keep what they are -/
+def arrayTag (t : Tag) : Tag := if t = .scalar then .plain else t
+
 def liftA (t : Tag) (r : Except Err Arr) : Except Err Val := r.map fun a => (a, t)
 
 /-- Expression evaluation, given how variables are read and the wrapping policy. -/
@@ -444,11 +447,11 @@ def eval (P : Policy) (gs : Grids) (look : Nat → Except Err Val) : Expr → Ex
   | .reshape s e =>
     match eval P gs look e with
     | .error err => .error err
-    | .ok v => if v.2 = .scalar then .error .unsupported else (Prim.reshape s v.1).map fun a => (a, v.2)
+    | .ok v => (Prim.reshape s v.1).map fun a => (a, arrayTag v.2)
   | .ravel e =>
     match eval P gs look e with
     | .error err => .error err
-    | .ok v => if v.2 = .scalar then .error .unsupported else .ok (Prim.ravel v.1, v.2)
+    | .ok v => .ok (Prim.ravel v.1, arrayTag v.2)
   | .copy e =>
     -- `ndarray.copy` + finalize  /  `np.copy` through `__array_function__` (always an ndarray)
     match eval P gs look e with
@@ -496,10 +499,11 @@ def stepO (gs : Grids) (s : OState) : Stmt → Except Err OState
       match s.cells[c]? with
       | none => .error .unsupported
       | some xv =>
-        if xv.2 = .scalar then .error .unsupported else
         match evalO gs s e with
         | .error err => .error err
-        | .ok ev => (Prim.inplace op xv.1 ev.1).map fun a => { s with cells := s.cells.set c (a, xv.2) }
+        | .ok ev => (Prim.inplace op xv.1 ev.1).map fun a =>
+            -- Python: `x = x.__iadd__(e)`; the method returns the very same object
+            { vars := bind s.vars x c, cells := s.cells.set c (a, xv.2) }
   | .setIx x i e =>
     match s.vars.lookup x with
     | none => .error .unsupported
@@ -507,7 +511,6 @@ def stepO (gs : Grids) (s : OState) : Stmt → Except Err OState
       match s.cells[c]? with
       | none => .error .unsupported
       | some xv =>
-        if xv.2 = .scalar then .error .unsupported else
         match evalO gs s e with
         | .error err => .error err
         | .ok ev =>
@@ -521,7 +524,6 @@ def stepO (gs : Grids) (s : OState) : Stmt → Except Err OState
       match s.cells[c]? with
       | none => .error .unsupported
       | some xv =>
-        if xv.2 = .scalar then .error .unsupported else
         match evalO gs s m with
         | .error err => .error err
         | .ok mv =>
@@ -572,7 +574,6 @@ def stepN (gs : Grids) (s : NState) : Stmt → Except Err NState
       match s.bufs[r.1]? with
       | none => .error .unsupported
       | some xa =>
-        if r.2 = .scalar then .error .unsupported else
         match evalN gs s e with
         | .error err => .error err
         | .ok ev => (Prim.inplace op xa ev.1).map fun a =>
@@ -585,7 +586,6 @@ def stepN (gs : Grids) (s : NState) : Stmt → Except Err NState
       match s.bufs[r.1]? with
       | none => .error .unsupported
       | some xa =>
-        if r.2 = .scalar then .error .unsupported else
         match evalN gs s e with
         | .error err => .error err
         | .ok ev =>
@@ -599,7 +599,6 @@ def stepN (gs : Grids) (s : NState) : Stmt → Except Err NState
       match s.bufs[r.1]? with
       | none => .error .unsupported
       | some xa =>
-        if r.2 = .scalar then .error .unsupported else
         match evalN gs s m with
         | .error err => .error err
         | .ok mv =>
